@@ -163,6 +163,14 @@ async def _main(case, obs, loop, net):
     async def one(i, spec):
         rec = {"i": i, "t_send": loop._vtime}
         waiters.append(rec)
+        f = case.get("fault")
+        if f and f["kind"] == "write_error" and f["at"] == i and conn._writer is not None:
+            # the transport refuses this write although nothing was read (no EOF, no reset): the connection is lost
+            import errno
+            conn._writer.transport.fail_next_write = OSError(errno.EPIPE if f.get("byte", 0) % 2 else errno.ETIMEDOUT, "write failed")
+            peer.fault_kind = "write_error"
+            peer.fault_fired_at = loop._vtime
+            peer.dead = True
         try:
             fut = conn.send(_build_request(spec["api"]))
         except Exception as e:
@@ -296,8 +304,10 @@ def execute(case):
         at = case["fault"]["at"]
         for i, spec in enumerate(reqs):
             w = ws.get(i)
-            if w is None or i < at or (peer.fault_kind == "dup" and i <= at):
+            if w is None or (i < at and peer.fault_kind != "write_error") or (peer.fault_kind == "dup" and i <= at):
                 continue
+            if i < at and peer.reply_done_at.get(i) is not None and peer.reply_done_at[i] < t_f - 1e-6:
+                continue                      # answered before the write failed
             if "send_error" in w:
                 if w["send_error"][0] not in conn_errors:
                     out.fail("fail_all", "send_raised_other:" + w["send_error"][0], {"i": i})
@@ -359,7 +369,7 @@ def strategy():
         if draw(st.integers(0, 2)) > 0:
             fault = {"at": draw(st.integers(0, n - 1)),
                      "kind": draw(st.sampled_from(["wrong_corr", "dup", "unsolicited", "truncated_body", "neg_size",
-                                                   "huge_size", "eof", "reset"])),
+                                                   "huge_size", "eof", "reset", "write_error"])),
                      "byte": draw(st.integers(0, 40))}
         return {"requests": reqs, "fault": fault, "request_timeout_ms": timeout_ms,
                 "chunks": draw(st.lists(st.sampled_from([0, 0, 1, 2, 3, 5, 9, 17, 64]), min_size=1, max_size=5)),
